@@ -56,6 +56,16 @@ def check_C04(res, tier, seed, replay):
         with open(trace, 'a') as f:
             f.write(open(trace_x).read())
         inputs += extra_in
+        # EVERY pair of per-rank address orders (P = 2) on the smallest graphs that reach the hidden-edge branch (5 edges):
+        # quick: rank 0 fixed x 120 orders on rank 1; thorough: all 14 400 pairs
+        small5 = [g for g in gs if len(g['edges']) == 5 and gens.csd(g) >= 2]
+        small5 = small5[::8] if tier == 'quick' else small5[::3]
+        sl = [vlib.graph_line(200000 + i, g['n'], g['edges'], 1) for i, g in enumerate(small5)]
+        trace_p = vlib.parallel_record(exe, sl, wd, 'mpip', extra=['--P', '2', '--layouts', 'allsecond' if tier == 'quick' else 'allpairs', '--algos', 'signed_mpi'], timeout=3000)
+        with open(trace, 'a') as f:
+            f.write(open(trace_p).read())
+        res.cov['exhaustive_layout_pairs'] = {'graphs': len(small5), 'runs': vlib.count_events(trace_p).get('Call', 0),
+                                              'what': 'P = 2, every address order of the 5 edge nodes on rank 1' + (' x every order on rank 0' if tier != 'quick' else ' (rank 0 in insertion order)')}
         ev = vlib.count_events(trace)
         if ev.get('LayoutError', 0):
             raise vlib.HarnessError('%d LayoutError events: the arena did not realise the requested edge order' % ev['LayoutError'])
